@@ -61,9 +61,16 @@ def live_case(ctx, cid, point):
         r2 = store.run_vsb(ctx, ['-c', w.cfg, 'backup', 'b'], now=w.now + 1, timeout=30)
         dt = time.time() - t0
         after = snapshot(w.root)
-        # release run 1
-        with open(fifo, 'w') as f:
-            f.write('x')
+        # release run 1 (never block on the fifo: if run 1 is gone nobody will ever open the other end)
+        deadline = time.time() + 20
+        while time.time() < deadline and p1.poll() is None:
+            try:
+                fd = os.open(fifo, os.O_WRONLY | os.O_NONBLOCK)
+            except OSError:
+                time.sleep(0.05)
+                continue
+            os.write(fd, b'x'); os.close(fd)
+            break
         try:
             out1, err1 = p1.communicate(timeout=60)
             rc1 = p1.returncode
